@@ -92,6 +92,16 @@ func (Engine) Run(c *choice.Src, o engine.Opt) (out engine.Out) {
 		return
 	}
 	msg := rnd.Bytes(20)
+	oneBuffer := c.Bool(1, 2, "msg.and.share.in.one.buffer")
+	var packet []byte
+	if oneBuffer {
+		// the message and (below) the first genuine share are adjacent sub-slices of one packet:
+		// whoever writes behind the message (spare capacity) writes into the share
+		packet = make([]byte, 20+48+16)
+		copy(packet, msg)
+		msg = packet[:20]
+		out.Faults["shape.message_and_share_share_backing_array"]++
+	}
 	tag := "thrconc"
 	hasher := crypto.NewExpandMsgXOFKMAC128(tag)
 	var pool []thrmodel.Share
@@ -100,6 +110,10 @@ func (Engine) Run(c *choice.Src, o engine.Opt) (out engine.Out) {
 		if err != nil {
 			viol("setup", "setup.sign", "%v", err)
 			return
+		}
+		if oneBuffer && i == 0 {
+			copy(packet[20:], s)
+			s = packet[20:68]
 		}
 		pool = append(pool, thrmodel.Share{Bytes: s, Kind: "true", TrueOf: i})
 	}
@@ -205,16 +219,36 @@ func (Engine) Run(c *choice.Src, o engine.Opt) (out engine.Out) {
 			}
 			plans[ti] = append(plans[ti], op)
 			total++
+			if (op.Name == "VerifyAndAdd" || op.Name == "VerifyShare") && op.Share >= n && op.Orig >= 0 && op.Orig < n &&
+				len(pool[op.Share].Bytes) == 48 && total < 24 && c.Bool(1, 2, "recvbuf") {
+				// receive-buffer pattern: the (rejected, hence not retained) share and the signer's
+				// genuine share that follows it arrive in the SAME caller buffer
+				plans[ti][len(plans[ti])-1].Reuse = true
+				plans[ti] = append(plans[ti], thrmodel.Op{Name: "VerifyAndAdd", Orig: op.Orig, Share: op.Orig, Reuse: true})
+				total++
+				out.Faults["workload.receive_buffer_reused_after_rejection"]++
+			}
 		}
 	}
 
 	// ---- the concurrent run under the seeded scheduler -----------------------------
 	recs := make([][]rec, ntasks)
+	recvBuf := make([][]byte, ntasks)
 	doOp := func(ti int, op thrmodel.Op) (r rec) {
 		r = rec{task: ti, op: op}
 		var sh crypto.Signature
 		if op.Share >= 0 {
 			sh = pool[op.Share].Bytes
+		}
+		if op.Reuse && len(sh) == 48 {
+			if recvBuf[ti] == nil {
+				recvBuf[ti] = make([]byte, 48)
+			}
+			copy(recvBuf[ti], sh)
+			sh = recvBuf[ti]
+			if op.Share < n {
+				recvBuf[ti] = nil // a genuine share may be retained by the object: the buffer is not reused afterwards
+			}
 		}
 		defer func() {
 			if p := recover(); p != nil {
